@@ -61,9 +61,10 @@ func checkExecution(sc *scen.Scenario, in *scen.Instance, x *sched.Result) (stri
 	case x.Invariant != "":
 		return "invariant", x.Invariant
 	}
+	exp := in.Expect()
 	for i, o := range x.Obs {
-		if o != in.Expected[i] {
-			return "result", fmt.Sprintf("thread %d observed %s, alone it observes %s", i, o, in.Expected[i])
+		if o != exp[i] {
+			return "result", fmt.Sprintf("thread %d observed %s, alone it observes %s", i, o, exp[i])
 		}
 	}
 	return "", ""
@@ -102,7 +103,7 @@ func exploreScenario(sc scen.Scenario, bound int, maxExec int64, slice, nslices 
 				pre++
 			}
 		}
-		viol = &report.Case{Kind: "sched", Expr: sc.Name, Op: fmt.Sprintf("schedule with %d preemption(s), %d points", pre, len(x.Points)), Expected: fmt.Sprint(last.Expected), Got: msg, Class: cls,
+		viol = &report.Case{Kind: "sched", Expr: sc.Name, Op: fmt.Sprintf("schedule with %d preemption(s), %d points", pre, len(x.Points)), Expected: fmt.Sprint(last.Expect()), Got: msg, Class: cls,
 			Extra: map[string]interface{}{"scenario": sc.Name, "choices": string(ch)}, Sig: prop + "|" + sc.Group + "|" + cls + "|" + scenarioKey(sc.Name), Weight: pre*1000 + len(x.Points)}
 		return false
 	})
